@@ -61,7 +61,7 @@ ODD = ['"', "<", ">", "`", "{", "}", "\\", "|", "^", "[", "]", "~", "!", "$", "'
 CTRL = ["\x00", "\x01", "\t", "\n", "\x1f", "\x7f"]
 ALNUM = list("aAzZbBmM019")
 NONASCII = ["é", "ß", "Σ", "€", "😀", "ǅ", "ǆ", "İ", "K", "ſ", "ı", "Ａ", "ᾈ", "À", "ẞ", "ﬀ", "ͅ"]
-TEXTS = ["..", ".", "%2F", "%2f", "%41", "%", "%%", "%zz", "pkg:", "a/b", "a=b&c=d", "x@1?y#z"]
+TEXTS = ["..", ".", "...", "....", "%2F", "%2f", "%41", "%", "%%", "%zz", "pkg:", "a/b", "a=b&c=d", "x@1?y#z"]
 ALPHABET = SEPS * 2 + ODD + CTRL + ALNUM * 3 + NONASCII
 
 
